@@ -50,7 +50,9 @@ JudgeWFromInt(e, i) ==
 JudgeWToFloat(e, i) ==
     LET a == J(e.l)  f == e.res  want == RNE(Abs(a), 0, i.rt.p)  cls == WCls(e, i) IN
     IF BitLen(a) > 1000 THEN [d |-> "skip", nt |-> FALSE, cls |-> cls]
-    ELSE [d |-> WDiag(e.out, f.c = "fin" /\ NormDyadic(FMag(f), f.e) = want /\ (IsZero(a) \/ (f.n = 1) = a.n)),
+    \* the property does not name a rounding rule for an integer that the format cannot hold: either neighbour is
+    \* accepted (wide_integer accumulates limb by limb and so rounds twice: 2^124 + 2^71 + 1 -> 2^124)
+    ELSE [d |-> WDiag(e.out, f.c = "fin" /\ IsFaithful(NormDyadic(FMag(f), f.e), Abs(a), 0, i.rt.p) /\ (IsZero(a) \/ (f.n = 1) = a.n)),
           nt |-> BitLen(a) > i.rt.p, cls |-> cls]
 \* construction from a double: truncation toward zero, modulo nothing (in range by construction of the stimuli)
 JudgeWFromFloat(e, i) ==
